@@ -10,6 +10,7 @@ import (
 	"math/rand"
 	"os"
 	"os/exec"
+	"runtime"
 	"runtime/debug"
 	"sort"
 	"strings"
@@ -157,11 +158,27 @@ func runCases(s Suite, cases []Case, r *Result) {
 	for i, c := range cases {
 		dops, res, crashed := safeExec(s.Exec, c.Ops)
 		if crashed != "" {
+			if strings.HasPrefix(crashed, "HANG") {
+				// goroutines of this case are stuck for good: report it and stop the suite here
+				r.Mismatches = append(r.Mismatches, Mismatch{Kind: "crash", Case: i, Impl: crashed, Ops: c.Ops})
+				r.Notes = append(r.Notes, "suite stopped after a hang")
+				implRes = implRes[:i]
+				dopsAll = dopsAll[:i]
+				cases = cases[:i]
+				break
+			}
 			r.Mismatches = append(r.Mismatches, Mismatch{Kind: "crash", Case: i, Impl: crashed, Ops: shrinkCrash(s, c.Ops)})
 			dops, res = nil, nil
 		}
 		implRes[i] = res
 		dopsAll[i] = dops
+		for _, d := range dops {
+			k := d
+			if j := strings.IndexByte(d, ' '); j > 0 {
+				k = d[:j]
+			}
+			r.count("op:"+k, 1)
+		}
 		all = append(all, dops...)
 		r.Evaluations += len(dops)
 		h := caseHash(c.Ops)
@@ -375,6 +392,12 @@ func pickValue(r *rand.Rand, tag int) []byte {
 	default:
 		return []byte(fmt.Sprintf("v%d", tag))
 	}
+}
+
+func allStacks() string {
+	buf := make([]byte, 1<<16)
+	n := runtime.Stack(buf, true)
+	return string(buf[:n])
 }
 
 func itoa(n int) string { return fmt.Sprintf("%d", n) }
